@@ -33,7 +33,12 @@ const (
 	StoreCollide = "collide"
 	// StoreUnicode: non-ASCII (valid UTF-8) and control characters in keys and values
 	StoreUnicode = "unicode"
+	// StoreBytes: keys and values are byte strings, not text: 0x80-0xFF outside any
+	// UTF-8 sequence, truncated sequences, NUL, and prefixes ending in 0xFF
+	StoreBytes = "bytes"
 )
+
+var valuePoolBytes = []string{"\xff", "v\x80x", "\xc3", "\xe4\xb8", "a\x00b", "\xfe\xff", "1", "12", "v1", "x", ""}
 
 var valuePoolUnicode = []string{"é", "日本", "naïve", "ß", "Ünï", "a\x00b", "tab\there", "line\nbreak", "😀", "٣", "１２", " 12 ", "1e2", "0x10", "+5", "-0", "1_000", "NaN", "Inf"}
 
@@ -53,6 +58,11 @@ func genValue(r *Rng, style string) string {
 		return pick(r, valuePoolText)
 	case StoreJSON:
 		return pick(r, valuePoolJSON)
+	case StoreBytes:
+		if r.Chance(0.6) {
+			return pick(r, valuePoolBytes)
+		}
+		return pick(r, valuePoolText)
 	case StoreUnicode:
 		if r.Chance(0.7) {
 			return pick(r, valuePoolUnicode)
@@ -98,6 +108,21 @@ func genStore(r *Rng, n int, style string) []KV {
 	}
 	if style == StoreUnicode {
 		base := []string{"k000", "k001", "k002", "k003", "k004", "k005", "ké", "k日", "k\x00", "k\x7f", "Ω", "é", "k00ß", "K000", "k 0"}
+		shuffle(r, base)
+		if n > len(base) {
+			n = len(base)
+		}
+		ks := append([]string{}, base[:n]...)
+		sort.Strings(ks)
+		out := make([]KV, len(ks))
+		for i, k := range ks {
+			out[i] = KV{k, genValue(r, style)}
+		}
+		return out
+	}
+	if style == StoreBytes {
+		base := []string{"k\xff", "k\xfe", "k\xff0", "k\xff1", "k\xff2", "k\xff\xff", "k\xfe1", "k\xfe\xff", "\xff", "\x80", "k\x80a", "k\x00", "k\x00\x01",
+			"u\xe4\xb8", "u\xe4\xba", "u\xe4\xb8\xad", "u\xe4\xb80", "u\xe4\xba0", "k000", "k001", "k002", "k003", "a", "z", "l", "k"}
 		shuffle(r, base)
 		if n > len(base) {
 			n = len(base)
